@@ -1,9 +1,9 @@
 (* nvref_c08: line protocol
-     acc <cfgbits9> <vm|native|interp> <get|set|pop|remove> <len-hex> <idx as [-]hex>  ->  elem <i-hex> | void | noop | trap ; then " legit"/" oob"
+     acc <cfgbits10> <vm|native|interp> <get|set|pop|remove> <len-hex> <idx as [-]hex>  ->  elem <i-hex> | void | noop | trap ; then " legit"/" oob"
      field <count-hex> <idx-hex>                                                      ->  elem <i-hex> | trap *)
 let cfg_of (s : ostring) : cfg =
   { fx_sec = s.[0] = '1'; fx_slen = s.[1] = '1'; fx_fnrange = s.[2] = '1'; fx_div = s.[3] = '1';
-    fx_substr = s.[4] = '1'; fx_print = s.[5] = '1'; fx_arr = s.[6] = '1'; fx_npop = s.[7] = '1'; fx_ipop = s.[8] = '1' }
+    fx_substr = s.[4] = '1'; fx_print = s.[5] = '1'; fx_arr = s.[6] = '1'; fx_npop = s.[7] = '1'; fx_ipop = s.[8] = '1'; fx_strict = s.[9] = '1' }
 let show = function AElem i -> "elem " ^ hex_of_n i | AVoid -> "void" | ANoop -> "noop" | ATrap -> "trap"
 let () = iter_lines (fun line ->
   match words line with
